@@ -152,13 +152,16 @@ def validate_traces(work, tracefile, procs=4, module="Trace_Client", cfg=None, s
 def crashed(p):
     """The test binary died: a deadlocked bubble (goroutine leak / hang) or a panic in a library goroutine
     is behaviour of the real code."""
-    tail = p.stdout[-6000:]
-    sims = re.findall(r"^SIM (\d+) (\S+)", p.stdout, re.M)
+    out = p.stdout
+    sims = re.findall(r"^SIM (\d+) (\S+)", out, re.M)
     last = sims[-1] if sims else ("?", "?")
-    if "blocked goroutines remain" in tail or "deadlock" in tail:
-        return "goroutines still blocked after the run ended (sim %s %s): %s" % (last[0], last[1], tail[-700:])
-    if "panic:" in tail or "fatal error" in tail:
-        return "the client crashed (sim %s %s): %s" % (last[0], last[1], tail[-900:])
+    # the headline comes before the dump of every goroutine, which can be long: look at the whole output
+    for pat, what in ((r"blocked goroutines remain|deadlock: ", "goroutines still blocked after the run ended"),
+                      (r"^panic: |^fatal error: ", "the client crashed")):
+        m = re.search(pat, out, re.M)
+        if m:
+            ctx = " ".join(out[max(0, m.start() - 200):m.start() + 900].split())
+            return "%s (sim %s %s): %s" % (what, last[0], last[1], ctx[:900])
     return None
 
 
